@@ -81,6 +81,13 @@ class Prop(BaseProp):
             except (re.error, RecursionError, OverflowError):
                 self.probes["pattern_rejected_by_re"] += 1
                 continue
+            if G.has_unsupported(ast) and (G.rep_nesting(ast) > 1 or gcfg.budget > 256):
+                # only `re` can judge these; keep them where re.fullmatch cannot blow up, so that the
+                # SIGALRM guard (which would make the outcome load-dependent) practically never fires
+                gcfg.budget = min(gcfg.budget, 64)
+                gcfg.depth = min(gcfg.depth, 2)
+                self.probes["unsupported_pattern_regenerated_simpler"] += 1
+                continue
             return {"ast": ast, "pattern": pat, "letters": letters, "max_repeat": max_repeat,
                     "route": route, "seed": derive(*labels, "sched"),
                     "m": cfg["m_seeded"], "flip_n": cfg["flip_n"]}
@@ -138,7 +145,7 @@ class Prop(BaseProp):
         """True / False / None (undecided).  Supported patterns: polynomial reference matcher over
         the AST, cross-checked against re.fullmatch whenever re answers within the time limit."""
         try:
-            with _Timer(0.05):
+            with _Timer(2.0 if unsup else 0.05):
                 re_ans = re.fullmatch(case["pattern"], s) is not None
         except _TimedOut:
             re_ans = None
